@@ -128,7 +128,7 @@ impl Check for C17 {
         }
     }
     fn rule(&self) -> String {
-        "generated family (tools/gen_derive.py, deterministic, identifier pool rotated by seed): single-field structs over {verbose, dry_run, v, r#type, file_name2} x {bool, (), String, u32, Option<String>, Option<u32>, Vec<String>, Vec<u32>} x about 20 annotation sets (none, doc comment, short, long, short+long, short('x'), long(\"custom\"), aliases, env, hide, argument(\"META\"), positional, positional(\"POS\"), fallback, switch, flag, req_flag, guard, some, explicit many/optional) in 10 top-level modes (parser, options, command, command(\"name\")+short, version, usage, fallback_to_usage, boxed, three-block doc comment, group doc comment); ordered pairs of 10 field specs; tuple structs; enums over all ordered pairs (and some triples) of 9 variant kinds (unit, documented, short, long+short, hidden, named fields, tuple, command with fields, unit command); every type comes with the hand-written parser the documentation prescribes, written by an independent implementation of the rules; both run on every vector of the token tree (all names, inline values valid and invalid, words, unknown flag, `--`, command names) and on --help / -h / --version / --help --help at every command path; equal values (Debug), equal failure class, equal help and error text; evaluation = one vector on both parsers; quick generates every third single-field spec and every second pair, thorough all of them; plus options(name) against batteries::cargo_helper with positional and named fields, and doc attributes without a leading space on fields and types".into()
+        "generated family (tools/gen_derive.py, deterministic, identifier pool rotated by seed): single-field structs over {verbose, dry_run, v, r#type, file_name2} x {bool, (), String, u32, Option<String>, Option<u32>, Vec<String>, Vec<u32>} x about 20 annotation sets (none, doc comment, short, long, short+long, short('x'), long(\"custom\"), aliases, env, hide, argument(\"META\"), positional, positional(\"POS\"), fallback, switch, flag, req_flag, guard, some, explicit many/optional) in 10 top-level modes (parser, options, command, command(\"name\")+short, version, usage, fallback_to_usage, boxed, three-block doc comment, group doc comment); ordered pairs of 10 field specs; tuple structs; enums over all ordered pairs (and some triples) of 9 variant kinds (unit, documented, short, long+short, hidden, named fields, tuple, command with fields, unit command); every type comes with the hand-written parser the documentation prescribes, written by an independent implementation of the rules; both run on every vector of the token tree (all names, inline values valid and invalid, words, unknown flag, `--`, command names) and on --help / -h / --version / --help --help at every command path; equal values (Debug), equal failure class, equal help and error text; evaluation = one vector on both parsers; quick generates every third single-field spec and every second pair, thorough all of them; plus options(name) against batteries::cargo_helper with positional and named fields, and doc attributes without a leading space on fields and types; plus adjacent on a variant with fields, command(..) with a type-level fallback / fallback_with, a struct-level command with several aliases".into()
     }
     fn bounds(&self, tier: Tier) -> Value {
         json!({"types": tier.pick("about 290", "about 700"), "vector_length": tier.pick(3, 4)})
